@@ -442,6 +442,9 @@ func init() {
 				} else {
 					p = genPacketWF(c.R, maxPl)
 					caWithDupes(c, p)
+					if c.R.Chance(1, 10) && p.ShareStorage(c.R) {
+						c.Tag("values=windows-of-one-array")
+					}
 				}
 				tagPacket(c, p)
 				observeC01(c, p, caGenPrev(c))
@@ -875,6 +878,9 @@ func init() {
 				} else {
 					p = genPacketWF(c.R, maxPl)
 					caWithDupes(c, p)
+					if c.R.Chance(1, 10) && p.ShareStorage(c.R) {
+						c.Tag("values=windows-of-one-array")
+					}
 				}
 				tagPacket(c, p)
 				ls := c04Lengths(p.Build())
@@ -1294,6 +1300,12 @@ func init() {
 					p.H.ExtensionProfile = uint16(c.R.Intn(65536))
 				}
 				caWithDupes(c, p)
+				// one packet in five: the values are windows into one shared array (same start with
+				// different lengths, overlapping, adjacent), as handed over by a caller who cuts them
+				// out of one scratch buffer
+				if c.R.Chance(1, 5) && p.ShareStorage(c.R) {
+					c.Tag("values=windows-of-one-array")
+				}
 				tagPacket(c, p)
 				mk := c.R.Intn(6)
 				c.Tag([]string{"mut=none", "mut=payload", "mut=csrc", "mut=extbyte", "mut=set", "mut=del"}[mk])
